@@ -283,7 +283,9 @@ class Path:
             if goal:
                 self.vcs.append(VC(name, "discharged", detail, kind=kind))
                 return True
-            g = z3.BoolVal(False)
+            # a goal that is concretely false on a path that was reached: refuted without asking the solver
+            self.vcs.append(VC(name, "refuted", detail, model=None, kind=kind))
+            return False
         else:
             g = self.z(goal) if not z3.is_expr(goal) else goal
         t0 = time.time()
@@ -309,6 +311,30 @@ class Path:
         self.vcs.append(VC(name, "undecided", detail + " [solver: %s]" % self.solver.reason_unknown(), time_s=dt, kind=kind))
         self.solver.add(g)
         return False
+
+
+def check_isolated(P, name, goal, assumptions, detail="", kind="safety", timeout_ms=20000):
+    """Discharge `goal` from an explicit list of assumptions in a fresh solver (used for small pure-real polynomial
+    side conditions, so that nothing else on the path - integer symbols, uninterpreted facts - reaches the NRA engine).
+    The assumptions must be facts already assumed on the path (callers pass exactly those)."""
+    s = z3.Solver()
+    s.set("timeout", timeout_ms)
+    for a in assumptions:
+        s.add(a)
+    s.add(z3.Not(goal))
+    t0 = time.time()
+    r = s.check()
+    dt = time.time() - t0
+    if r == z3.unsat:
+        # the (non-linear) goal is NOT added to the path solver: it would switch every later query to the NRA engine
+        P.vcs.append(VC(name, "discharged", detail, time_s=dt, kind=kind))
+        return True
+    if r == z3.sat:
+        m = s.model()
+        P.vcs.append(VC(name, "refuted", detail, model={str(d): str(m[d]) for d in m.decls() if d.arity() == 0}, time_s=dt, kind=kind))
+        return False
+    P.vcs.append(VC(name, "undecided", detail + " [solver: %s]" % s.reason_unknown(), time_s=dt, kind=kind))
+    return False
 
 
 def explore(run, max_paths=20000, timeout_ms=20000):
@@ -588,7 +614,10 @@ class Interp:
             if b.is_zero():
                 self.raise_py(node, "ZeroDivisionError")
             if not b.is_const():
-                self.P.check("nonzero-divisor[%s]" % self.site(node), self.P.z(b) != 0, "divisor %r" % (b,))
+                if self.P.ghost.get("nra_facts") and not alg._is_linear(b):
+                    check_isolated(self.P, "nonzero-divisor[%s]" % self.site(node), self.P.z(b) != 0, self.P.ghost["nra_facts"], "divisor %r" % (b,))
+                else:
+                    self.P.check("nonzero-divisor[%s]" % self.site(node), self.P.z(b) != 0, "divisor %r" % (b,))
             r = a / b
         elif isinstance(op, ast.Pow):
             if b.is_const() and b.const_value().denominator == 1:
